@@ -2923,7 +2923,7 @@ func (p *Parser) evaluateWrite(ctx context) (Expression, error) {
 		}
 		data := expressions[1]
 
-		if !path.ValueType().IsString() {
+		if !data.ValueType().IsString() {
 			return nil, p.expectedError("data string as second parameter", keywordToken)
 		}
 		var append Expression = BooleanLiteral{false}
